@@ -1,12 +1,13 @@
 (* C07 over whole runs for every step filter and stop block - property theorems only.
-   Statements: Spec/C07_Shapes_Spec.v, Spec/C07_More_Spec.v, Spec/C07_Final_Spec.v, Spec/C07_FinalUnfixed_Spec.v;
-   proofs: Proofs/C07_Shapes.v, C07_Raw.v, C07_Filters.v, C07_ChainFacts.v, C07_FiltersNum.v, C07_FinalHub.v, C07_Final.v,
-   C07_FinalRefuted.v. *)
+   Statements: Spec/C07_Shapes_Spec.v, Spec/C07_More_Spec.v, Spec/C07_Final_Spec.v, Spec/C07_FinalUnfixed_Spec.v,
+   Spec/C07_TargetUnfixed_Spec.v; proofs: Proofs/C07_Shapes.v, C07_Raw.v, C07_Filters.v, C07_ChainFacts.v, C07_FiltersNum.v,
+   C07_FiltersCursor.v, C07_FiltersTarget.v, C07_FinalHub.v, C07_Final.v, C07_FinalMem.v, C07_FinalCursor.v,
+   C07_FinalTarget.v, C07_FinalRefuted.v, C07_TargetRefuted.v. *)
 From BV Require Import Base.Prelude Model.Block Model.ForkDB Model.Forkable Model.ForkableLookups
   Model.Burst Model.Hub Model.CursorResolver Model.Joining
   Spec.Consumer Spec.Universe Check.Burst_Check Check.C07_Check Spec.C06_Spec Spec.C07_Spec Spec.C09_Spec Spec.C13_Spec
-  Spec.C07_Compose_Spec Spec.C07_Shapes_Spec Spec.C07_More_Spec Spec.C07_Final_Spec Spec.C07_FinalUnfixed_Spec Spec.C07_Fuel_Spec
-  Proofs.C07_ComposeRun Proofs.C07_ComposeCheck Proofs.C07_FullRefuted Proofs.C07_Shapes Proofs.C07_FiltersNum Proofs.C07_FiltersCursor Proofs.C07_FiltersTarget Proofs.C07_Final Proofs.C07_FinalMem Proofs.C07_FinalCursor Proofs.C07_FinalRefuted Proofs.C07_Fuel
+  Spec.C07_Compose_Spec Spec.C07_Shapes_Spec Spec.C07_More_Spec Spec.C07_Final_Spec Spec.C07_FinalUnfixed_Spec Spec.C07_TargetUnfixed_Spec Spec.C07_Fuel_Spec
+  Proofs.C07_ComposeRun Proofs.C07_ComposeCheck Proofs.C07_FullRefuted Proofs.C07_Shapes Proofs.C07_FiltersNum Proofs.C07_FiltersCursor Proofs.C07_FiltersTarget Proofs.C07_Final Proofs.C07_FinalMem Proofs.C07_FinalCursor Proofs.C07_FinalTarget Proofs.C07_TargetRefuted Proofs.C07_FinalRefuted Proofs.C07_Fuel
   Properties.C07_Compose.
 Local Open Scope N_scope.
 
@@ -34,16 +35,20 @@ Theorem c07_seamless_cursor_nu : C07_seamless_cursor_nu.
 Proof. exact c07_seamless_cursor_nu_proof. Qed.
 Print Assumptions c07_seamless_cursor_nu.
 
-(* target-cursor mode, filters with New and Undo, ANY stop block; partial: the two agreement hypotheses of
-   c07_seamless_target_partial remain (files_on_hub, target_on_chain) *)
+(* target-cursor mode, filters with New and Undo, ANY stop block; partial: target_on_chain remains (a stored cursor block
+   is on the hub's chain).  files_on_hub is no longer needed: since the fix "target join on identity" a target cursor
+   below the file block joins on the block's identity, and a cursor at or above it joins "through the cursor", where the
+   hub's block of that height is the ancestor of the canonical cursor block *)
 Theorem c07_seamless_target_nu_partial : C07_seamless_target_nu.
 Proof. exact c07_seamless_target_nu_proof. Qed.
 Print Assumptions c07_seamless_target_nu_partial.
 
-(* ... with files_on_hub discharged from files_final (merged blocks at or below the ready hub's LIB) *)
-Theorem c07_seamless_target_nu_final_partial : C07_seamless_target_nu_final.
-Proof. exact c07_seamless_target_nu_final_proof. Qed.
-Print Assumptions c07_seamless_target_nu_final_partial.
+(* BEFORE that fix (stream_run_tnum, Spec/C07_TargetUnfixed_Spec.v) target-cursor mode joined the hub by block NUMBER when
+   the cursor was below the file block: with every hypothesis of c07_seamless_target_nu_partial the hub on a fork at the
+   join height broke the discipline - found by this proof, reproduced on the real code, repaired *)
+Theorem c07_target_join_by_number_refuted : C07_target_join_by_number_refuted.
+Proof. exact c07_target_join_by_number_refuted_proof. Qed.
+Print Assumptions c07_target_join_by_number_refuted.
 
 (* number mode, final blocks only (the stateful filter of the fix "each final block once"), any stop block: each
    delivered block extends the previous one; complete on the final chain.  No files_final hypothesis. *)
@@ -75,6 +80,12 @@ Print Assumptions c07_final_increasing.
 Theorem c07_seamless_cursor_final : C07_seamless_cursor_final_full.
 Proof. exact c07_seamless_cursor_final_proof. Qed.
 Print Assumptions c07_seamless_cursor_final.
+
+(* final blocks only, TARGET-cursor mode (final target cursor on canon), any stop block: each delivered block extends the
+   previous one; complete on the final chain.  World hypotheses only: neither files_on_hub nor target_on_chain *)
+Theorem c07_seamless_target_final : C07_seamless_target_final_full.
+Proof. exact c07_seamless_target_final_proof. Qed.
+Print Assumptions c07_seamless_target_final.
 
 (* the fuel: a run ends with JFuel only if a burst of the hub exceeds the explicit bound (or through the fuel of the
    hub's lookups / the cursor resolver); partial: the bound is a hypothesis, the stream's fuel does not cover every world *)
@@ -232,7 +243,7 @@ Definition mx_c4 : jcfg := mkJ 2 0 10 2 5 (Some cx_cu4) 17 2 3.
 
 Example c07_more_nonvacuous_target :
   hub_of_universe cx_U mx_c4 cx_w /\ eventual_tip mx_c4 cx_w cx_canon /\
-  files_on_hub mx_c4 cx_w cx_merged /\ target_on_chain mx_c4 cx_w cx_cu4 /\
+  target_on_chain mx_c4 cx_w cx_cu4 /\
   j_mode mx_c4 = 2 /\ j_cursor mx_c4 = Some cx_cu4 /\ has_nu (j_filter mx_c4) (j_custom mx_c4) = true /\ 0 < j_bundle mx_c4 /\
   In (cx_b 14) cx_canon /\ bref (cx_b 14) = cu_blk cx_cu4 /\
   (exists b, In b cx_canon /\ bnum b = run_start mx_c4 cx_w) /\
@@ -243,7 +254,6 @@ Proof.
   destruct c07_compose_nonvacuous_hyps as (_ & _ & Hhub & _ & _ & _ & _ & _).
   split; [exact Hhub|].
   split; [apply eventual_tip_b_sound; vm_compute; reflexivity|].
-  split; [apply files_on_hub_b_sound; vm_compute; reflexivity|].
   split; [apply target_on_chain_b_sound; vm_compute; reflexivity|].
   split; [reflexivity|]. split; [reflexivity|]. split; [reflexivity|]. split; [reflexivity|].
   split; [vm_compute; tauto|]. split; [reflexivity|].
@@ -280,4 +290,38 @@ Proof.
   split; [apply eventual_tip_b_sound; vm_compute; reflexivity|].
   split; [reflexivity|]. split; [reflexivity|]. split; [reflexivity|]. split; [reflexivity|]. split; [reflexivity|].
   split; [vm_compute; reflexivity|]. split; reflexivity.
+Qed.
+
+(* final blocks only through a target cursor: the world of c07_join_by_number_refuted (the hub becomes ready on the fork
+   13 <- 114 <- 115 while the files hold 14, 15) with the final target cursor on block 12 meets every hypothesis of
+   c07_seamless_target_final; the join happens at 13 with the hub on the fork, the handler sees nothing of the fork *)
+Definition ft_cu : cursor := mkCursor SIrr (mkR 12 12) (mkR 12 12) (mkR 12 12).
+Definition ft_c : jcfg := mkJ 2 5 10 2 5 (Some ft_cu) 0 1 0.
+Example c07_target_final_nonvacuous :
+  wf_b na_U = true /\ lib_ok_b LNone na_U = true /\ hub_of_universe na_U ft_c na_w /\
+  chain_ok na_canon /\ incl na_canon na_U /\ eventual_tip ft_c na_w na_canon /\
+  j_mode ft_c = 2 /\ j_cursor ft_c = Some ft_cu /\ j_filter ft_c = 1 /\ 0 < j_bundle ft_c /\
+  In (na_b 12) na_canon /\ bref (na_b 12) = cu_blk ft_cu /\ cu_lib ft_cu = cu_blk ft_cu /\
+  (exists b, In b na_canon /\ bnum b = run_start ft_c na_w) /\
+  cx_show (stream_run ft_c na_w [(8, 4)] 16 (filter (fun b => bnum b <? 16) na_canon) [])
+  = ([(SNewIrr, 5); (SNewIrr, 6); (SNewIrr, 7); (SNewIrr, 8); (SNewIrr, 9); (SNewIrr, 10); (SNewIrr, 11); (SNewIrr, 12);
+      (SNewIrr, 13); (SIrr, 14); (SIrr, 15); (SIrr, 16); (SIrr, 17); (SIrr, 18)], JNil).
+Proof.
+  destruct c07_join_by_number_refuted_proof as (U & c & w & ps & me & canon & forked & _).
+  split; [vm_compute; reflexivity|]. split; [vm_compute; reflexivity|].
+  split.
+  { split.
+    - exists []. split; [intros b p []|reflexivity].
+    - intros b Hb. vm_compute in Hb. vm_compute. tauto. }
+  split.
+  { split.
+    - vm_compute. repeat split.
+    - apply (NoDup_map_inv (fun x => x)). rewrite map_id. vm_compute.
+      repeat (constructor; [cbn; intros K; repeat (destruct K as [K|K]; [discriminate|]); exact K|]). constructor. }
+  split; [intros b Hb; unfold na_U; apply in_or_app; left; exact Hb|].
+  split; [apply eventual_tip_b_sound; vm_compute; reflexivity|].
+  split; [reflexivity|]. split; [reflexivity|]. split; [reflexivity|]. split; [reflexivity|].
+  split; [vm_compute; tauto|]. split; [reflexivity|]. split; [reflexivity|].
+  split; [exists (na_b 5); split; [vm_compute; tauto | vm_compute; reflexivity]|].
+  vm_compute. reflexivity.
 Qed.
